@@ -13,6 +13,7 @@ run_variant() { # $1 dir $2 label $3 tolerate-exit-2
   local bad=0
   for p in $PROPS; do
     out=$(./check $p --repo $1 --no-evidence 2>&1); code=$?
+    if [ $code -eq 2 ] && echo " $4 " | grep -q " $p "; then echo "limit variant=$2 $p exit=2 (documented: $(echo "$out" | grep -E '^ANALYSIS-BROKEN' | head -1 | cut -c1-140))"; continue; fi
     if [ $code -eq 1 ] || { [ $code -eq 2 ] && [ "$3" != yes ]; }; then
       bad=1; echo "FALSE-ALARM variant=$2 $p exit=$code $(echo "$out" | grep -E '^(VIOLATION|ANALYSIS-BROKEN)' | head -1 | cut -c1-200) $(echo "$out" | grep -E '^  at' | head -1 | cut -c1-220)"
     fi
@@ -38,7 +39,9 @@ for P in "$@"; do
   if ! (cd $D && patch -p1 -s --no-backup-if-mismatch < /verif/$P >/dev/null 2>&1 || patch -p1 -s --no-backup-if-mismatch < $P >/dev/null 2>&1); then
     echo "stale variant=$(basename $P) (does not apply to the current sources; re-record it)"; rm -rf $D; continue; fi
   tol=no; grep -q '^# anchor-moving' $P && tol=yes
-  run_variant $D $(basename $P .patch) $tol || rc=1
+  # "# tolerate-exit-2: Cxx[,Cyy] -- reason": a documented limit of the model; those properties may answer analysis-broken (2), never 1
+  tolprops=$(grep -m1 '^# tolerate-exit-2:' $P | sed 's/^# tolerate-exit-2: *//; s/ --.*//; s/,/ /g')
+  run_variant $D $(basename $P .patch) $tol "$tolprops" || rc=1
   rm -rf $D
 done
 exit $rc
